@@ -309,6 +309,8 @@ impl ColumnParsing {
                                             "dec" => { month = 12; }
                                             _ => { return Value::Null; }
                                         }
+                                    } else {
+                                        return Value::Null;
                                     }
                                 } else {
                                     return Value::Null;
